@@ -360,7 +360,10 @@ func runDurRemove(c *Ctx, r *RuleRun) {
 			continue
 		}
 		// (a)/(d): dominated by a durable table publish
-		q := PathQuery{P: p, Fn: f, Avoid: d.tablePub.Avoid(f), EdgeOK: d.tablePub.EdgeOK(f), Target: func(ins ssa.Instruction) bool { return ins == s.ins }}
+		// (the site itself never justifies itself: a helper that removes and then publishes is a call that "must
+		// publish", but its removal comes first)
+		pubAvoid := d.tablePub.Avoid(f)
+		q := PathQuery{P: p, Fn: f, Avoid: func(ins ssa.Instruction) bool { return ins != s.ins && pubAvoid(ins) }, EdgeOK: d.tablePub.EdgeOK(f), Target: func(ins ssa.Instruction) bool { return ins == s.ins }}
 		w := q.FindPath()
 		localOnly := false
 		if df, isDefer := s.ins.(*ssa.Defer); isDefer {
@@ -415,7 +418,32 @@ func runDurRemove(c *Ctx, r *RuleRun) {
 					callers = append(callers, cs)
 				}
 			}
-			if len(callers) > 0 && len(w) > 0 && w[0].Block() == f.Blocks[0] {
+			// "told to": the file removed is named by a parameter of the helper (not the receiver). A function that chooses
+			// its victims itself answers for them itself - an unrelated table published earlier in some caller is no excuse.
+			told := false
+			if ci, ok := s.ins.(ssa.CallInstruction); ok {
+				first := 0
+				if f.Signature.Recv() != nil {
+					first = 1
+				}
+				for _, arg := range ci.Common().Args {
+					if p.dependsOn(arg, func(x ssa.Value) bool {
+						pr, isParam := x.(*ssa.Parameter)
+						if !isParam || pr.Parent() != f {
+							return false
+						}
+						for i, q := range f.Params {
+							if q == pr {
+								return i >= first
+							}
+						}
+						return false
+					}) {
+						told = true
+					}
+				}
+			}
+			if told && len(callers) > 0 && len(w) > 0 && w[0].Block() == f.Blocks[0] {
 				for _, cs := range callers {
 					via := p.FnName(f)
 					if s.via != "" {
@@ -918,10 +946,45 @@ func runDurTorn(c *Ctx, r *RuleRun) {
 	// a classifier function answers "torn" as soon as ONE of the end-of-input errors matches (a conjunction of them can
 	// never hold)
 	for _, f := range p.Funcs {
-		if f.Pkg != pk || f.Signature.Results().Len() != 1 {
+		if f.Pkg != pk {
 			continue
 		}
-		if bt, ok := f.Signature.Results().At(0).Type().Underlying().(*types.Basic); !ok || bt.Kind() != types.Bool {
+		isBoolFn := f.Signature.Results().Len() == 1
+		if isBoolFn {
+			bt, ok := f.Signature.Results().At(0).Type().Underlying().(*types.Basic)
+			isBoolFn = ok && bt.Kind() == types.Bool
+		}
+		if !isBoolFn {
+			// the classification written out where the record is read: a successful end-of-input test decides by
+			// itself - its true edge does not lead into another end-of-input test (that would be a conjunction)
+			for _, b := range f.Blocks {
+				if len(b.Instrs) == 0 {
+					continue
+				}
+				iff, ok := b.Instrs[len(b.Instrs)-1].(*ssa.If)
+				if !ok {
+					continue
+				}
+				ci, ok := iff.Cond.(ssa.Instruction)
+				if !ok || !isClassifier(ci) {
+					continue
+				}
+				nxt := b.Succs[0]
+				for hops := 0; hops < 4 && len(nxt.Instrs) == 1; hops++ {
+					if _, isJump := nxt.Instrs[0].(*ssa.Jump); !isJump {
+						break
+					}
+					nxt = nxt.Succs[0]
+				}
+				again := false
+				if i2, ok := nxt.Instrs[len(nxt.Instrs)-1].(*ssa.If); ok {
+					if c2, ok := i2.Cond.(ssa.Instruction); ok && isClassifier(c2) && c2.Block() == nxt {
+						again = true
+					}
+				}
+				r.Check(!again, p.FnName(f), "one end-of-input error is enough", p.Pos(instrPos(iff)), "this test decides by itself when it succeeds",
+					"a successful end-of-input test leads into the next one (the tests are combined with && instead of ||): a record cut short is never recognised and recovery fails on it")
+			}
 			continue
 		}
 		var mustTrue func(b, from *ssa.BasicBlock, depth int) bool
@@ -1237,14 +1300,9 @@ func runLexnumSort(c *Ctx, r *RuleRun) {
 				sorted := call.Call.Args[0]
 				bad := ""
 				for _, elem := range sliceElemUses(sorted) {
-					for _, ref := range *elem.Referrers() {
-						uc, ok := ref.(*ssa.Call)
-						if !ok {
-							continue
-						}
-						if parsesNumber(uc) || p.SiteMayReach(uc, parsesNumber) {
-							bad = p.Pos(instrPos(uc))
-						}
+					// the element itself (or a piece of it) is what gets parsed - not merely "a parser is reachable"
+					if at := flowsToCall(p, elem, parsesNumber, 0, map[ssa.Value]bool{}); at != nil {
+						bad = p.Pos(instrPos(at))
 					}
 				}
 				r.Check(bad == "", p.FnName(f), "text-sort", p.Pos(instrPos(call)), "elements are not parsed as numbers",
@@ -1309,4 +1367,60 @@ func sliceElemUses(sl ssa.Value) []ssa.Value {
 		}
 	}
 	return out
+}
+
+// flowsToCall: the string v - or a string derived from it by slicing, concatenation, conversion or a string-valued
+// library call - is an argument of a call satisfying sink, followed through parameters of module functions (four
+// levels). Returns the sink call.
+func flowsToCall(p *Prog, v ssa.Value, sink InstrPred, depth int, seen map[ssa.Value]bool) ssa.Instruction {
+	if v == nil || depth > 4 || seen[v] || v.Referrers() == nil {
+		return nil
+	}
+	seen[v] = true
+	for _, ref := range *v.Referrers() {
+		switch x := ref.(type) {
+		case *ssa.Call:
+			if sink(x) {
+				return x
+			}
+			if g := x.Call.StaticCallee(); g != nil && p.InModule(g) && len(g.Blocks) > 0 {
+				for i, a := range x.Call.Args {
+					if a == v && i < len(g.Params) {
+						if at := flowsToCall(p, g.Params[i], sink, depth+1, seen); at != nil {
+							return at
+						}
+					}
+				}
+				continue
+			}
+			// a library call that hands back a string (strings.TrimSuffix, path.Base, …): the result is derived
+			if isStringType(x.Type()) {
+				if at := flowsToCall(p, x, sink, depth, seen); at != nil {
+					return at
+				}
+			}
+		case *ssa.Slice, *ssa.Convert, *ssa.ChangeType, *ssa.Phi, *ssa.MakeInterface:
+			if at := flowsToCall(p, x.(ssa.Value), sink, depth, seen); at != nil {
+				return at
+			}
+		case *ssa.BinOp:
+			if x.Op == token.ADD {
+				if at := flowsToCall(p, x, sink, depth, seen); at != nil {
+					return at
+				}
+			}
+		case *ssa.Store:
+			// spilled into a local cell: the loads of the cell
+			if al, ok := x.Addr.(*ssa.Alloc); ok && x.Val == v {
+				for _, r2 := range *al.Referrers() {
+					if ld, ok := r2.(*ssa.UnOp); ok && ld.X == ssa.Value(al) {
+						if at := flowsToCall(p, ld, sink, depth, seen); at != nil {
+							return at
+						}
+					}
+				}
+			}
+		}
+	}
+	return nil
 }
